@@ -75,6 +75,17 @@ def one(ctx, data, meta=None, opts=((False, False), (True, False), (True, True))
                     return expected(copy.deepcopy(d.docx_reader.file_of_type('officeDocument').root_element), croot)
         except Exception:
             return ranges0
+    # known finding: inline content that stands OUTSIDE every paragraph (a display equation, a run directly in the body or in a cell)
+    # is collected into an implicit paragraph that stays open; every range that ends after such an element is miscounted
+    stray_before = set()
+    if root is not None:
+        seen_stray = False
+        for x in root.iter():
+            if not isinstance(x.tag, str): continue
+            t = src.ptag(x)
+            if t in ('w:r', 'm:oMath', 'm:oMathPara', 'w:hyperlink', 'w:fldSimple') and not any(src.ptag(a_) in ('w:p', 'w:r', 'm:oMath', 'm:oMathPara', 'w:hyperlink', 'w:fldSimple') for a_ in x.iterancestors()):
+                seen_stray = True
+            if t == 'w:commentRangeEnd' and seen_stray: stray_before.add(src.wval(x, 'id'))
     for html, dup in opts:
         ranges, wellformed, nids, entries, touched = merged_expected(html)
         i, m = pk.both(ctx.drv, data, html, dup, want=['runs', 'comments'])
@@ -101,7 +112,8 @@ def one(ctx, data, meta=None, opts=((False, False), (True, False), (True, True))
             def subseq(a, b):
                 it = iter(b); return all(x in it for x in a)
             if (toks != ranges[e['id']]) if not dup else (not subseq(ranges[e['id']], toks)):
-                ctx.fail("the anchored text is not the text between the comment's range markers", c, {'reference': tup[0], 'expected_tokens': ranges[e['id']]}); good = False; continue
+                ctx.fail("the anchored text is not the text between the comment's range markers", c, {'reference': tup[0], 'expected_tokens': ranges[e['id']]},
+                         features=['inline-content-outside-paragraph-before-range-end'] if e['id'] in stray_before else []); good = False; continue
             ok = any(''.join(allruns[b:b + n]) == tup[0] for b in range(len(allruns) + 1) for n in range(0, len(allruns) - b + 1)) if len(allruns) < 120 else True
             if not ok: ctx.fail('the anchored text is not a concatenation of consecutive run strings of body_runs', c, tup[0]); good = False
     # the run machine (Spec/Runs.lean, the spec of walk_runs / C12_between) against the implementation, in BOTH html modes: for every
